@@ -332,7 +332,7 @@ def b_hist_scale(ctx):
     import pandas as pd
     import pylife.stress.collective   # noqa
     warnings.simplefilter('ignore')
-    ctx.bound = "3x3 range/mean and from/to matrices with counts 1..9; scale factors 0.5, 2, -1, -0.5; shifts 1.5, -2; per-node factors [2, -0.5]"
+    ctx.bound = "3x3 range/mean and from/to matrices with counts 1..9 (float class limits; range/mean and range-only also with integer class limits); scale factors 0.5, 2, -1, -0.5; shifts 1.5, -2; per-node factors [2, -0.5]"
     ctx.rule = "every (layout, operation, operand) is one case; non-trivial: negative or per-node operand"
     rg = pd.IntervalIndex.from_breaks([0.0, 2.0, 4.0, 6.0], name='range')
     mn = pd.IntervalIndex.from_breaks([-3.0, -1.0, 1.0, 3.0], name='mean')
@@ -340,6 +340,12 @@ def b_hist_scale(ctx):
     to = pd.IntervalIndex.from_breaks([-2.0, 0.0, 2.0, 4.0], name='to')
     mats = {'range/mean': pd.Series(np.arange(1.0, 10.0), index=pd.MultiIndex.from_product([rg, mn]), name='cycles'),
             'from/to': pd.Series(np.arange(1.0, 10.0), index=pd.MultiIndex.from_product([fr, to]), name='cycles')}
+    # class limits that are whole numbers stored as integers (interval[int64]: what range_histogram([0, 1, 2, 3]) / histogram([0, 2, 4, 6]) / pd.interval_range(0, 4)
+    # hand out), with non-integer operands (added after seed C14-h pinned the transformed limits to the dtype of the source level)
+    rgi = pd.IntervalIndex.from_breaks([0, 2, 4, 6], name='range')
+    mni = pd.IntervalIndex.from_breaks([-3, -1, 1, 3], name='mean')
+    mats['range/mean, integer limits'] = pd.Series(np.arange(1.0, 10.0), index=pd.MultiIndex.from_product([rgi, mni]), name='cycles')
+    mats['range only, integer limits'] = pd.Series(np.arange(1.0, 4.0), index=rgi, name='cycles')
     for (lname, mat), (op, operand) in itertools.product(mats.items(), [('scale', 0.5), ('scale', 2.0), ('scale', -1.0), ('scale', -0.5), ('shift', 1.5), ('shift', -2.0)]):
         ctx.case(operand < 0, key=(lname, op, operand))
         h = mat.load_collective
@@ -353,6 +359,8 @@ def b_hist_scale(ctx):
         up, lo = np.asarray(res.upper, dtype=float), np.asarray(res.lower, dtype=float)
         want_a = np.abs(operand) * a0 if op == 'scale' else a0
         want_m = operand * m0 if op == 'scale' else m0 + operand
+        if lname.startswith('range only') and op == 'shift':
+            want_m = m0          # a pure range histogram carries no mean: shift leaves it alone
         cyc_same = np.array_equal(np.asarray(res.to_pandas(), dtype=float), np.asarray(mat, dtype=float))
         # the class mids are identified by value, not by position: compare as multisets of (amplitude, mean, count)
         got_rows = sorted(zip(np.round(a1, 9), np.round(m1, 9), np.asarray(res.to_pandas(), dtype=float)))
